@@ -15,7 +15,7 @@ PROPERTY = 'C11'
 META = {
     'bounds': 'sequentialised connection (one networking-thread body at a '
               'time, no interleavings); the protocol version is one symbolic '
-              'number over the 250 supported versions; server histories over '
+              'number over the 250 supported versions (quick tier, multi-packet patterns: over 12 boundary releases); server histories over '
               '{keep-alive, position-and-look, unknown-id frame, known but '
               'unhandled packet} of length <= 3 (thorough 4) as enumerated '
               'patterns, optionally ended by a disconnect packet; keep-alive '
@@ -97,7 +97,7 @@ def _ids(cx):
 
 
 def play(ctx, pattern, version='sym', compressed=False, sentinel=False,
-         sym_coords=False):
+         sym_coords=False, lite=False):
     """pattern: string over K (keep-alive), P (position and look), U (unknown
     id frame), H (known but unhandled: time update), D (disconnect, last)"""
     import minecraft
@@ -107,6 +107,11 @@ def play(ctx, pattern, version='sym', compressed=False, sentinel=False,
     if version == 'sym':
         pv = sym_version(ctx, 'pv',
                          list(minecraft.SUPPORTED_PROTOCOL_VERSIONS))
+    elif version == 'boundary':
+        # still one symbolic version, over the releases on either side of
+        # every layout change of the packets involved
+        pv = sym_version(ctx, 'pv', [47, 107, 110, 338, 340, 404, 498, 578,
+                                     736, 754, 756, 757])
     else:
         pv = version
     cx = ConnectionContext(protocol_version=pv)
@@ -116,8 +121,11 @@ def play(ctx, pattern, version='sym', compressed=False, sentinel=False,
     ids = _ids(cx)
     for i, ch in enumerate(pattern):
         if ch == 'K':
+            # (quick tier: VarInt ids of one or two bytes - every VarInt
+            # otherwise forks into five length classes per version class)
             k = ctx.int('ka%d' % i, -(1 << 63), (1 << 63) - 1) if long_ids \
-                else ctx.int('ka%d' % i, 0, (1 << 32) - 1)
+                else ctx.int('ka%d' % i, 0, (1 << 14) - 1 if lite
+                             else (1 << 32) - 1)
             history.append(cb.KeepAlivePacket(keep_alive_id=k))
             payload = wire.be(E(k), 8) if long_ids else ('leb', E(k))
             expect.append(('K', payload))
@@ -138,7 +146,8 @@ def play(ctx, pattern, version='sym', compressed=False, sentinel=False,
                 # through the FP solver)
                 vals = dict(x=1.5, y=-64.25, z=3e7, yaw=370.5, pitch=-12.0,
                             flags=ctx.int('fl%d' % i, -128, 127))
-            tid = ctx.int('tp%d' % i, 0, (1 << 32) - 1)
+            tid = ctx.int('tp%d' % i, 0, (1 << 14) - 1 if lite
+                          else (1 << 32) - 1)
             pkt = cb.PlayerPositionAndLookPacket(teleport_id=tid,
                                                  dismount_vehicle=False,
                                                  **vals)
@@ -240,7 +249,10 @@ def instances(tier, seed):
         pats += ['KK', 'PUK', 'D', 'KKKK', 'KPUH', 'HUPK', 'PKPD', 'UUKD',
                  'HHKK']
     for p in pats:
-        out.append(Instance('play:%s' % p, 'play', {'pattern': p}, W=96,
+        out.append(Instance('play:%s' % p, 'play',
+                            {'pattern': p, 'lite': tier != 'thorough',
+                             'version': 'sym' if tier == 'thorough' or
+                             len(p) == 1 else 'boundary'}, W=96,
                             budget_s=3000, witness_every=5,
                             max_decisions=200000))
     out.append(Instance('play:z:KPUKD', 'play',
